@@ -20,7 +20,13 @@ def mkindOf : String → Option MKind
   | "i" => some .ascii | "I" => some .utf8 | _ => none
 
 def rvarOf : String → Option RVar
-  | "a" => some .plain | "U" => some .upper | "x" => some .syntax | "u" => some .nonAscii | _ => none
+  | "a" => some .plain | "U" => some .upper | "x" => some .syntax | "u" => some .nonAscii
+  -- other spellings of the same mailbox (harness: `c03Rcpt`): ASCII ones (mixed-case local part, upper-case /
+  -- absolute domain, quoted local part, A-label of the domain's second name) behave like the plain address,
+  -- the ones with non-ASCII characters (NFD, upper-case non-ASCII, U-label) need SMTPUTF8
+  | "c" | "C" | "d" | "e" | "q" | "i" | "I" => some .plain
+  | "n" | "k" | "j" | "J" => some .nonAscii
+  | _ => none
 
 def dkindOf : String → Option DKind
   | "o" => some .plain | "r" => some .loop | "h" => some .bigHeader | "t" => some .truncated
@@ -222,8 +228,81 @@ def handleT : List String → String
     | _, _, _ => "bad-op"
   | _ => "bad-op"
 
+
+/-- the scopes with a concurrency limiter per limits block (harness: `c03LimCfgs`): all, ip, source -/
+def limScopesB : Nat → Option (Bool × Bool × Bool)
+  | 0 | 1 | 2 | 5 => some (true, true, true)
+  | 3 => some (false, true, false)
+  | 4 => some (true, false, true)
+  | _ => none
+
+def bReap : Nat := 10
+
+def showB (tok code : String) (s : BSt) : String :=
+  s!"{tok}={code}:{if s.hasAll then s.glob else 0},{s.ip.held},{s.src.held};{s.ip.m.length},{s.src.m.length}"
+
+def codeStr (c : Nat) : String := if c == 0 then "-" else toString c
+
+/-- `f<n>`: n sessions in a row with fresh keys, each MAIL (+RCPT), RSET, QUIT -/
+def floodB : Nat → Nat → BSt → List String → BSt × Nat × List String
+  | 0, fresh, s, acc => (s, fresh, acc.reverse)
+  | n + 1, fresh, s, acc =>
+    let k := 100 + fresh + 1
+    let (s1, c) := s.step (.opn (1000 + k) k k)
+    let (s2, _) := s1.step (.cls (1000 + k) false true)
+    floodB n (fresh + 1) s2 (codeStr c :: acc)
+
+def stepsB : List String → Nat → BSt → Option (List String)
+  | [], _, s => some [s!"| panics={s.panics}"]
+  | t :: ts, fresh, s =>
+    let next (o : String) (s1 : BSt) (fr : Nat) : Option (List String) := (stepsB ts fr s1).map (o :: ·)
+    if t == "a" then let s1 := (s.step (.adv 15)).1; next (showB t "-" s1) s1 fresh
+    else if t == "h" then let s1 := (s.step (.adv 3)).1; next (showB t "-" s1) s1 fresh
+    else if t.startsWith "f" then
+      match (t.drop 1).toString.toNat? with
+      | some n =>
+        let (s1, fr, codes) := floodB n fresh s []
+        next (showB t (if codes.isEmpty then "-" else "/".intercalate codes) s1) s1 fr
+      | none => none
+    else if t.startsWith "o" then
+      match ((t.drop 1).toString.splitOn ":").mapM String.toNat? with
+      | some [i, ip, dom] =>
+        if i ≥ 1000 || s.connected i then none else
+        let (s1, c) := s.step (.opn i ip dom)
+        next (showB t (codeStr c) s1) s1 fresh
+      | _ => none
+    else if t.startsWith "c" then
+      match (t.drop 1).toString.splitOn ":" with
+      | [i, how] =>
+        match i.toNat? with
+        | some i =>
+          if how != "d" && how != "r" && how != "q" && how != "x" then none else
+          let (s1, c) := s.step (.cls i (how == "d") (how == "r"))
+          next (showB t (codeStr c) s1) s1 fresh
+        | none => none
+      | _ => none
+    else none
+
+def handleB : List String → String
+  | p :: m :: lim :: maxB :: steps =>
+    match lim.toNat?, maxB.toNat? with
+    | some lim, some maxB =>
+      match limScopesB lim with
+      | some (hasAll, hasIp, hasSrc) =>
+        if (p != "S" && p != "L") || (m != "D" && m != "I") || maxB < 1 || steps.isEmpty then "bad-op" else
+        let s0 : BSt := { hasAll := hasAll, ip := { on := hasIp, maxB := maxB, reap := bReap }, src := { on := hasSrc, maxB := maxB, reap := bReap } }
+        match stepsB steps 0 s0 with
+        | some outs =>
+          -- the end: whatever is still connected goes away
+          " ".intercalate outs
+        | none => "bad-op"
+      | none => "bad-op"
+    | _, _ => "bad-op"
+  | _ => "bad-op"
+
 def handle : List String → String
   | "t" :: rest => handleT rest
+  | "b" :: rest => handleB rest
   | "s" :: p :: m :: cfgS :: rest0 =>
     let (scopes, rest) : Option (Bool × Bool × Bool) × List String := match rest0 with
       | t :: ts => if t.startsWith "P" then (parsePeer t, ts) else (some (true, true, true), rest0)
